@@ -177,19 +177,24 @@ func c07GenExtra(tier string, rng *rand.Rand, emit func(interface{})) {
 	top := math.Ldexp(1, 1023)
 	// ---- (f) the whole range of the doubling loop: supports at +-2^k up to the last finite probe 2^1023
 	// and beyond it (the expansion overflows and the closure returns +-Inf), deterministic
-	for _, k := range []int{22, 30, 40, 51, 52, 53, 54, 55, 56, 64, 100, 128, 200, 300, 331, 332, 333, 334, 400, 512, 513, 700, 900, 1000, 1020, 1021, 1022} {
+	for _, k := range []int{22, 40, 52, 53, 54, 55, 64, 128, 332, 333, 600, 1000, 1022} {
 		p2 := math.Ldexp(1, k)
 		for _, sg := range []float64{1, -1} {
-			for _, t := range []float64{p2, math.Nextafter(p2, 0), math.Nextafter(p2, math.Inf(1)), 1.5 * p2} {
-				if math.Abs(t)+math.Abs(t)/16 >= top {
-					continue
-				}
-				t *= sg
-				w := math.Abs(t) / 16
+			t := sg * p2
+			w := p2 / 16
+			if p2+w < top {
+				// point mass; ramp from t; ramp to t with jumps at both ends; CDF(t) == 1/2 exactly at a bracket end point
 				emit(c07Case{Op: 0, Knots: c07Pt(t), Bl: F64(t), Bh: F64(t), Ys: sweepYs})
 				emit(c07Case{Op: 0, Knots: []c07Knot{{X: F64(t), L: 0, V: 0}, {X: F64(t + w), L: 1, V: 1}}, Bl: F64(t), Bh: F64(t + w), Ys: sweepYs})
 				emit(c07Case{Op: 0, Knots: []c07Knot{{X: F64(t - w), L: 0, V: 0.25}, {X: F64(t), L: 0.75, V: 1}}, Bl: F64(t - w), Bh: F64(t), Ys: sweepYs})
 				emit(c07Case{Op: 0, Knots: []c07Knot{{X: F64(t - w), L: 0, V: 0}, {X: F64(t), L: 0.5, V: 0.5}, {X: F64(t + w), L: 1, V: 1}}, Bl: F64(t - w), Bh: F64(t + w), Ys: sweepYs})
+			}
+			// next to the probe, and half way to the next one
+			for _, u := range []float64{math.Nextafter(p2, 0), math.Nextafter(p2, math.Inf(1))} {
+				emit(c07Case{Op: 0, Knots: c07Pt(sg * u), Bl: F64(sg * u), Bh: F64(sg * u), Ys: sweepYs})
+			}
+			if 1.5*p2+w < top {
+				emit(c07Case{Op: 0, Knots: []c07Knot{{X: F64(sg*1.5*p2 - w), L: 0, V: 0.25}, {X: F64(sg*1.5*p2 + w), L: 0.75, V: 1}}, Bl: F64(sg*1.5*p2 - w), Bh: F64(sg*1.5*p2 + w), Ys: sweepYs})
 			}
 			// a jump at 0 and the rest of the weight far out: both directions of the expansion in one case
 			lo, hi := math.Min(0, sg*p2), math.Max(0, sg*p2)
@@ -245,7 +250,7 @@ func c07GenExtra(tier string, rng *rand.Rand, emit func(interface{})) {
 		emit(c07Case{Op: 4, Knots: []c07Knot{{X: F64(-w), L: 0, V: 0}, {X: F64(w), L: 1, V: 1}}, Bl: F64(-w), Bh: F64(w), Src: []int64{0, 3 << 60}})
 	}
 	// ---- (h) random piecewise distributions located anywhere up to 2^1015 (and down to 2^22)
-	for i := 0; i < 150*mul; i++ {
+	for i := 0; i < 60*mul; i++ {
 		knots, step := c07GenPWAt(rng, math.Ldexp(float64(2*rng.Intn(2)-1)*(1+rng.Float64()), 22+rng.Intn(994)))
 		bl, bh := c07GenBounds(rng, knots, step)
 		emit(c07Case{Op: 0, Knots: knots, Bl: F64(bl), Bh: F64(bh), Ys: c07GenYs(rng, knots)})
@@ -470,7 +475,23 @@ func c07GenExtra(tier string, rng *rand.Rand, emit func(interface{})) {
 			xs[j] = float64(rng.Intn(65)-32) / 8
 		}
 		sort.Float64s(xs)
-		emit(c07Case{Op: 7, Kind: 2, Xs: toF64s(xs), B: F64(float64(1+rng.Intn(8)) / 4), Src: randSrc(0.001 + 0.998*rng.Float64())})
+		emit(c07Case{Op: 7, Kind: 2, Xs: toF64s(xs), B: F64(float64(1+rng.Intn(8)) / 4), D: rng.Intn(3), Src: randSrc(0.001 + 0.998*rng.Float64())})
+		emit(c07Case{Op: 6, Kind: 2, Xs: toF64s(xs), B: F64(float64(1+rng.Intn(8)) / 4), D: 1 + rng.Intn(2), Ys: toF64s(relLevels()), Seeds: seeds()})
+	}
+	// ---- (k) "exactly 0 (1)": the cdf at the lower (upper) bound is positive but tiny (below 1 by one ulp);
+	// the end point is NOT returned
+	for _, tiny := range []float64{math.Ldexp(1, -52), math.Ldexp(1, -60), math.Ldexp(1, -300), math.Ldexp(1, -1000)} {
+		for _, t := range []float64{0, 1, -3, 1e6} {
+			ys := toF64s([]float64{0, 1, tiny, tiny / 2, 0.5, 1 - math.Ldexp(1, -53)})
+			// jump of height tiny at the lower bound; the cdf reaches 1 - 2^-53 at the upper bound and 1 one step later
+			emit(c07Case{Op: 0, Knots: []c07Knot{{X: F64(t), L: 0, V: F64(tiny)}, {X: F64(t + 1), L: F64(tiny), V: F64(1 - math.Ldexp(1, -53))}, {X: F64(t + 2), L: F64(1 - math.Ldexp(1, -53)), V: 1}},
+				Bl: F64(t), Bh: F64(t + 1), Ys: ys})
+			emit(c07Case{Op: 0, Knots: []c07Knot{{X: F64(t), L: 0, V: F64(tiny)}, {X: F64(t + 1), L: F64(tiny), V: F64(1 - math.Ldexp(1, -53))}, {X: F64(t + 2), L: F64(1 - math.Ldexp(1, -53)), V: 1}},
+				Step: 1, Bl: F64(t), Bh: F64(t + 1), Ys: ys})
+			// the same with the bounds one step further out: there the cdf IS exactly 0 / 1
+			emit(c07Case{Op: 0, Knots: []c07Knot{{X: F64(t), L: 0, V: F64(tiny)}, {X: F64(t + 1), L: F64(tiny), V: F64(1 - math.Ldexp(1, -53))}, {X: F64(t + 2), L: F64(1 - math.Ldexp(1, -53)), V: 1}},
+				Bl: F64(t - 1), Bh: F64(t + 2), Ys: ys})
+		}
 	}
 }
 
